@@ -1,2 +1,199 @@
-(** Property C16 -- theorems only. (placeholder while the model is validated) *)
-From DV Require Import Phoenix.Model Phoenix.Corr.
+(** Property C16 -- Siemens ASCCONV protocol text is parsed without losing or altering any value.
+    Theorems only (proved in Phoenix/Proofs*.v, Common/PyNumFacts.v), each with a non-vacuity Example.
+    Vocabulary (Phoenix/Spec.v): [render_line], [render_val], [good_key], [good_val], [good_str],
+    [expect_val], [render_prot], [assign_all], [lookup], [keys], [first_keys]. *)
+From Coq Require Import List Bool ZArith NArith QArith.
+From DV Require Import Common.Res Common.Str Common.F64 Common.PyNum Common.PyNumFacts
+                       Phoenix.Model Phoenix.Spec Phoenix.Proofs Phoenix.Examples.
+Import ListNotations.
+Open Scope N_scope.
+
+(** Every rendered assignment  [ws0 key ws1 = ws2 value ws3 [# comment]]  is parsed back to exactly
+    (key, value), in both dialects: decimal integers (any Z), 0x-hex integers (any Z), float tokens
+    (the result is [py_float tok], the correctly rounded double), strings in which the closing
+    delimiter is the first delimiter after the opening one ('#' and '=' allowed).  Blanks are any
+    Python whitespace; the comment text is arbitrary. *)
+Theorem C16_roundtrip : forall d, dialect d ->
+  forall ws0 key ws1 ws2 v ws3 comment,
+  all_space ws0 = true -> all_space ws1 = true -> all_space ws2 = true -> all_space ws3 = true ->
+  good_key d key = true -> good_val d v = true ->
+  parse_line (render_line ws0 key ws1 ws2 (render_val d v) ws3 comment) d
+  = Ok (Some (key, expect_val v)).
+Proof. exact roundtrip. Qed.
+
+Example C16_roundtrip_str2 :   (* doubled dialect, string with '#', '=' and a lone quote, comment with quotes *)
+  parse_line (render_line [32;9] ex_key2 [32] [32;160] (render_val DELIM2 (RStr ex_str1)) [9] (Some ex_comment)) DELIM2
+  = Ok (Some (ex_key2, PStr ex_str1)).
+Proof. apply (C16_roundtrip DELIM2 (or_introl eq_refl) _ _ _ _ (RStr ex_str1)); reflexivity. Qed.
+Example C16_roundtrip_str1 :   (* single dialect *)
+  parse_line (render_line [] ex_key2 [] [] (render_val DELIM1 (RStr ex_str2)) [] None) DELIM1
+  = Ok (Some (ex_key2, PStr ex_str2)).
+Proof. apply (C16_roundtrip DELIM1 (or_intror eq_refl) _ _ _ _ (RStr ex_str2)); reflexivity. Qed.
+Example C16_roundtrip_int :
+  parse_line (render_line [] ex_key1 [32] [32] (render_val DELIM1 (RInt (-36893488147419103232)%Z)) [32] (Some ex_comment)) DELIM1
+  = Ok (Some (ex_key1, PInt (-36893488147419103232)%Z)).
+Proof. apply (C16_roundtrip DELIM1 (or_intror eq_refl) _ _ _ _ (RInt _)); reflexivity. Qed.
+Example C16_roundtrip_hex :
+  parse_line (render_line [] ex_key1 [32] [32] (render_val DELIM2 (RHex 3735928559%Z)) [] None) DELIM2
+  = Ok (Some (ex_key1, PInt 3735928559%Z)).
+Proof. apply (C16_roundtrip DELIM2 (or_introl eq_refl) _ _ _ _ (RHex _)); reflexivity. Qed.
+Example C16_roundtrip_float :
+  parse_line (render_line [] ex_key1 [32] [32] (render_val DELIM2 (RFloat ex_flt1)) [32] (Some [])) DELIM2
+  = Ok (Some (ex_key1, PFloat (FFin (- (fl (15 # 100000000)))%Q))).
+Proof.
+  rewrite (C16_roundtrip DELIM2 (or_introl eq_refl) _ _ _ _ (RFloat ex_flt1)); try reflexivity.
+Qed.
+
+(** Blank and comment-only lines are ignored. *)
+Theorem C16_blank : forall d, dialect d -> forall ws, all_space ws = true ->
+  parse_line ws d = Ok None /\ (forall text, parse_line (ws ++ 35%N :: text) d = Ok None).
+Proof. exact blank. Qed.
+
+Example C16_blank_ex : parse_line ([32; 9] ++ 35 :: ex_comment) DELIM1 = Ok None.
+Proof. apply (C16_blank DELIM1 (or_intror eq_refl) [32;9]%N eq_refl). Qed.
+
+(** Malformed lines raise the parse error -- never a wrong value. *)
+Theorem C16_malformed : forall d, dialect d ->
+  (* no '=' in a line that has something in front of its first '#' *)
+  (forall line, lacks 61 line = true -> py_strip (before_hash line) <> [] ->
+     parse_line line d = Err EPhoenix)
+  /\
+  (* unterminated quote: an opening delimiter and no further delimiter anywhere after it *)
+  (forall ws0 key ws1 ws2 s,
+     all_space ws0 = true -> all_space ws1 = true -> all_space ws2 = true -> good_key d key = true ->
+     find_sub d s = None ->
+     parse_line (ws0 ++ key ++ ws1 ++ [61%N] ++ ws2 ++ d ++ s) d = Err EPhoenix)
+  /\
+  (* a well-formed string followed by something that is neither blank nor a comment *)
+  (forall ws0 key ws1 ws2 s ws c rest,
+     all_space ws0 = true -> all_space ws1 = true -> all_space ws2 = true -> good_key d key = true ->
+     good_str d s = true -> all_space ws = true -> py_isspace c = false -> c <> 35%N ->
+     parse_line (ws0 ++ key ++ ws1 ++ [61%N] ++ ws2 ++ (d ++ s ++ d) ++ ws ++ c :: rest) d = Err EPhoenix)
+  /\
+  (* a bare token (possibly empty) that none of int(s), int(s,16), float(s) accepts *)
+  (forall ws0 key ws1 ws2 tok ws3 comment,
+     all_space ws0 = true -> all_space ws1 = true -> all_space ws2 = true -> all_space ws3 = true ->
+     good_key d key = true -> forallb tok_char tok = true ->
+     is_ok (py_int tok) = false -> is_ok (py_int16 tok) = false -> is_ok (py_float tok) = false ->
+     parse_line (render_line ws0 key ws1 ws2 tok ws3 comment) d = Err EPhoenix).
+Proof. exact malformed. Qed.
+
+Example C16_malformed_no_equals : parse_line ex_line_noeq DELIM2 = Err EPhoenix.
+Proof.
+  apply (proj1 (C16_malformed DELIM2 (or_introl eq_refl))); [reflexivity | vm_compute; discriminate].
+Qed.
+Example C16_malformed_unterminated :     (* key = <q>a # b = c *)
+  parse_line (ex_key2 ++ [32] ++ [61] ++ [32] ++ DELIM1 ++ ex_str2) DELIM1 = Err EPhoenix.
+Proof.
+  apply (proj1 (proj2 (C16_malformed DELIM1 (or_intror eq_refl))) [] ex_key2 [32]%N [32]%N ex_str2); reflexivity.
+Qed.
+Example C16_malformed_junk :             (* key = <q><q>a # b = c<q><q> x # y *)
+  parse_line (ex_key2 ++ [32] ++ [61] ++ [32] ++ (DELIM2 ++ ex_str2 ++ DELIM2) ++ [32] ++ 120 :: ex_junk_rest) DELIM2
+  = Err EPhoenix.
+Proof.
+  apply (proj1 (proj2 (proj2 (C16_malformed DELIM2 (or_introl eq_refl)))) [] ex_key2 [32]%N [32]%N ex_str2 [32]%N 120%N);
+    try reflexivity. discriminate.
+Qed.
+Example C16_malformed_bare :             (* key = --1 # comment ;  key =      (empty value) *)
+  parse_line (render_line [] ex_key1 [32] [32] ex_bad_tok [32] (Some ex_comment)) DELIM1 = Err EPhoenix
+  /\ parse_line (render_line [] ex_key1 [32] [32] [] [32] None) DELIM2 = Err EPhoenix.
+Proof.
+  split.
+  - apply (proj2 (proj2 (proj2 (C16_malformed DELIM1 (or_intror eq_refl))))); reflexivity.
+  - apply (proj2 (proj2 (proj2 (C16_malformed DELIM2 (or_introl eq_refl))))); reflexivity.
+Qed.
+
+(** The section between the first BEGIN marker and the first END marker is parsed line by line; what
+    is in front of / after the markers is ignored; the result is the ordered dict of the assignments
+    (last assignment of a key wins, keys in order of first insertion); the first malformed line makes
+    the call raise. *)
+Theorem C16_prot : forall pkey d, prot_dialect pkey d ->
+  forall before hdr lines after,
+  lacks 10 hdr = true -> Forall (fun l => lacks 10 l = true) lines ->
+  find_sub ASC_BEGIN (render_prot before hdr lines after) = Some (length before) ->
+  find_sub ASC_END (render_prot before hdr lines after) = Some (length (prot_head before hdr lines)) ->
+  (forall results, Forall2 (fun l r => parse_line l d = Ok r) lines results ->
+     let assignments := somes results in
+     parse_prot pkey (render_prot before hdr lines after) = Ok (assign_all assignments [])
+     /\ (forall k, lookup k (assign_all assignments []) = lookup k (rev assignments))
+     /\ keys (assign_all assignments []) = first_keys (map fst assignments) [])
+  /\
+  (forall good results bad rest e,
+     lines = good ++ bad :: rest ->
+     Forall2 (fun l r => parse_line l d = Ok r) good results -> parse_line bad d = Err e ->
+     parse_prot pkey (render_prot before hdr lines after) = Err e).
+Proof. exact prot. Qed.
+
+Example C16_prot_ex :
+  parse_prot K_MrPhoenixProtocol (render_prot ex_before ex_hdr ex_lines ex_after)
+  = Ok [ (ex_k_ulVersion, PInt 7%Z);                  (* assigned twice: last value, first position *)
+         (ex_k_tProtocolName, PStr ex_v_name);
+         (ex_k_alTR0, PInt 2500%Z);
+         (ex_k_dFlip, PFloat (FFin (fl (775 # 10)%Q))) ].
+Proof.
+  refine (proj1 (proj1 (C16_prot K_MrPhoenixProtocol DELIM2 (or_introl (conj eq_refl eq_refl))
+                   ex_before ex_hdr ex_lines ex_after eq_refl _ eq_refl eq_refl)
+            [ Some (ex_k_ulVersion, PInt 21110005%Z); None; Some (ex_k_tProtocolName, PStr ex_v_name); None;
+              Some (ex_k_alTR0, PInt 2500%Z); Some (ex_k_ulVersion, PInt 7%Z);
+              Some (ex_k_dFlip, PFloat (FFin (fl (775 # 10)%Q))) ] _)).
+  - unfold ex_lines. repeat constructor.
+  - unfold ex_lines. repeat (constructor; [vm_compute; reflexivity|]). constructor.
+Qed.
+
+(** [d[k] = v] on the ordered dict. *)
+Theorem C16_dict_set : forall k v (dct : dict),
+  (forall k', lookup k' (dict_set k v dct) = if str_eqb k' k then Some v else lookup k' dct)
+  /\ keys (dict_set k v dct) = (if key_in k (keys dct) then keys dct else keys dct ++ [k]).
+Proof. exact dict_set_spec. Qed.
+
+Example C16_dict_set_ex :
+  keys (dict_set ex_k_alTR0 (PInt 1%Z) [(ex_k_ulVersion, PInt 7%Z); (ex_k_alTR0, PInt 2500%Z)]) = [ex_k_ulVersion; ex_k_alTR0].
+Proof. rewrite (proj2 (C16_dict_set _ _ _)). reflexivity. Qed.
+
+(** int(str(z)) == z for every integer z. *)
+Theorem C16_int_dec : forall z, py_int (dec_of_Z z) = Ok z.
+Proof. exact int_dec. Qed.
+
+Example C16_int_dec_ex : py_int (dec_of_Z (-18446744073709551617)%Z) = Ok (-18446744073709551617)%Z.
+Proof. apply C16_int_dec. Qed.
+
+(** hex(z) is not a decimal integer and int(hex(z), 16) == z for every integer z. *)
+Theorem C16_int_hex : forall z, py_int (hex_of_Z z) = Err EValue /\ py_int16 (hex_of_Z z) = Ok z.
+Proof. exact int_hex. Qed.
+
+Example C16_int_hex_ex : hex_of_Z (-255)%Z = [45; 48; 120; 102; 102] /\ py_int16 (hex_of_Z (-255)%Z) = Ok (-255)%Z.
+Proof. split; [reflexivity | apply C16_int_hex]. Qed.
+
+(** Float literals  [-]digits[.digits][e(+|-)digits]  with a fraction or an exponent (the shape of
+    Python's repr) are good float tokens and float() returns the correctly rounded double
+    ([dec_to_f64]) of the decimal number they denote. *)
+Theorem C16_float_repr : forall neg ip fp ex,
+  float_lit_ok ip fp ex = true -> has_frac_or_exp fp ex = true ->
+  good_float_tok (float_lit neg ip fp ex) = true
+  /\ py_float (float_lit neg ip fp ex) = Ok (float_lit_val neg ip fp ex).
+Proof. exact float_repr. Qed.
+
+Example C16_float_repr_ex :      (* -1.5e-07 *)
+  float_lit true [49] (Some [53]) (Some (true, [48; 55])) = ex_flt1
+  /\ good_float_tok ex_flt1 = true
+  /\ py_float ex_flt1 = Ok (dec_to_f64 true 15%Z 2%nat (-8)%Z).
+Proof.
+  pose proof (C16_float_repr true [49]%N (Some [53]%N) (Some (true, [48; 55]%N)) eq_refl eq_refl) as [H1 H2].
+  split; [reflexivity|]. split; [exact H1 | exact H2].
+Qed.
+
+(** One-quote dialect: a string is admissible iff it contains no quote character. *)
+Theorem C16_str_single_quote : forall s, good_str DELIM1 s = true <-> qfree s = true.
+Proof. exact good_str_D1. Qed.
+
+Example C16_str_single_quote_ex : good_str DELIM1 ex_str2 = true /\ good_str DELIM2 ex_str1 = true.
+Proof. split; reflexivity. Qed.
+
+(** Stated limit of the float domain: a bare token made only of hex digits is read as a hexadecimal
+    integer by the int(s, 16) fall-back --  k = 1e5  gives 485, not 100000.0. *)
+Theorem C16_bare_1e5_is_hex : forall d, dialect d ->
+  parse_line ex_line_1e5 d = Ok (Some ([107%N], PInt 485%Z)).
+Proof. intros d [-> | ->]; reflexivity. Qed.
+
+Example C16_bare_1e5_is_hex_ex : dialect DELIM2.
+Proof. now left. Qed.
